@@ -1,6 +1,6 @@
 SPECIFICATION Spec
 CONSTANTS
-  MaxLen = 6
+  MaxLen = 8
   EmitRecords = TRUE
   CheckDef = TRUE
 INVARIANT DeltaIsDefinition
